@@ -2,10 +2,15 @@
 
 import collections
 from datetime import datetime
+import re
 
 import stix2.utils
 
 """Supported filter operations"""
+_TIMESTAMP_RE = re.compile(
+    r"\d{4}-\d{2}-\d{2}T\d{2}:\d{2}:\d{2}(\.\d+)?Z\Z",
+)
+
 FILTER_OPS = ['=', '!=', 'in', '>', '<', '>=', '<=', 'contains']
 
 """Supported filter value types"""
@@ -83,6 +88,21 @@ class Filter(collections.namedtuple('Filter', ['property', 'op', 'value'])):
         if isinstance(stix_obj_property, datetime) and \
                 isinstance(self.value, str):
             filter_value = stix2.utils.parse_into_datetime(self.value)
+        elif isinstance(stix_obj_property, str) and \
+                isinstance(self.value, (str, datetime)) and \
+                _TIMESTAMP_RE.match(stix_obj_property) and (
+                    isinstance(self.value, datetime) or
+                    _TIMESTAMP_RE.match(self.value)
+                ):
+            # Objects of unregistered types are kept as plain dictionaries, so
+            # their timestamps are still strings: compare them as instants too.
+            try:
+                stix_obj_property = stix2.utils.parse_into_datetime(
+                    stix_obj_property,
+                )
+                filter_value = stix2.utils.parse_into_datetime(self.value)
+            except ValueError:
+                filter_value = self.value
         else:
             filter_value = self.value
 
